@@ -361,6 +361,7 @@ class Fock(BaseState):
                     return False
                 else:
                     self.dimensions = new_dimensions
+                    return True
             elif self.expansion_level is ExpansionLevel.Vector:
                 assert isinstance(self.state, jnp.ndarray)
                 if self.dimensions < new_dimensions:
@@ -374,7 +375,7 @@ class Fock(BaseState):
                     self.dimensions = new_dimensions
                     return True
                 num_quanta = num_quanta_vector(self.state)
-                if self.dimensions > new_dimensions and num_quanta < new_dimensions + 1:
+                if self.dimensions > new_dimensions and num_quanta < new_dimensions:
                     self.state = self.state[:new_dimensions]
                     self.dimensions = new_dimensions
                     return True
@@ -393,7 +394,7 @@ class Fock(BaseState):
                     self.dimensions = new_dimensions
                     return True
                 num_quanta = num_quanta_matrix(self.state)
-                if new_dimensions < self.dimensions:
+                if new_dimensions < self.dimensions and num_quanta < new_dimensions:
                     self.state = self.state[:new_dimensions, :new_dimensions]
                     self.dimensions = new_dimensions
                     return True
